@@ -496,6 +496,14 @@ M['C15'] = [
 
 # ------------------------------------------------------------------------------------------- C01
 M['C01'] = [
+    dict(id='c01-rb-insert-root-not-blackened', kind='fault', rule='W11', edits=[
+        ('src/rbtree.c', '    *BN_COLOR(t->t.root) = CSTL_RBTREE_COLOR_B;\n}', '}')]),
+    dict(id='c01-benign-rb-insert-root-blackened-if-red', kind='benign', rule='W11', edits=[
+        ('src/rbtree.c', '    *BN_COLOR(t->t.root) = CSTL_RBTREE_COLOR_B;\n}', '    if (*BN_COLOR(t->t.root) != CSTL_RBTREE_COLOR_B) {\n        *BN_COLOR(t->t.root) = CSTL_RBTREE_COLOR_B;\n    }\n}')]),
+    dict(id='c01-rb-erase-final-black-only-if-moved', kind='fault', rule='W10', edits=[
+        ('src/rbtree.c', '        *BN_COLOR(x) = CSTL_RBTREE_COLOR_B;\n    }\n}', '        if (x->p != NULL) {\n            *BN_COLOR(x) = CSTL_RBTREE_COLOR_B;\n        }\n    }\n}')]),
+    dict(id='c01-benign-rb-erase-final-black-if-red', kind='benign', rule='W10', edits=[
+        ('src/rbtree.c', '        *BN_COLOR(x) = CSTL_RBTREE_COLOR_B;\n    }\n}', '        if (*BN_COLOR(x) == CSTL_RBTREE_COLOR_R) {\n            *BN_COLOR(x) = CSTL_RBTREE_COLOR_B;\n        }\n    }\n}')]),
     dict(id='c01-second-recursion-ignores-stop', kind='fault', rule='W1', edits=[
         ('src/bintree.c', '    if (res == 0 && rn != NULL) {\n        /* visit the subtree rooted at the right child */', '    if (rn != NULL) {\n        /* visit the subtree rooted at the right child */')]),
     dict(id='c01-pre-and-mid-swapped', kind='fault', rule='W1', edits=[
